@@ -262,6 +262,10 @@ func runCase(c *Case, w *trace.Writer, seed int64, hammer bool) {
 						if out := digest(req); out != in {
 							emit(Event{Ev: "askbuf", Node: 0, Digest: in, DigOut: out, Len: len(req)})
 						}
+						// the handler owns the request until it returns and may modify it
+						for i := range req {
+							req[i] = 0x5A
+						}
 						return n
 					})
 				}
